@@ -1,7 +1,8 @@
 (* C19 -- tools cannot be steered outside the intended files.  ONLY statements closed by `exact`. *)
-From OV Require Import Base.Strs Path.FsTree Path.Realpath Path.PathCheck Gen.PathsGen.
+From OV Require Import Base.Strs Path.FsTree Path.Realpath Path.PathCheck Path.PathPins Gen.PathsGen.
 
-(* the three validators of the current source have all three checks (orders: translator) *)
+(* the three validators of the current source have all three checks (orders: translator) and the lstat-only
+   link test `current.is_symlink()` (repo fix 039cc0c; which test the source uses is read by the translator) *)
 Theorem C19_validators_wf : cfg_wf cfg_write = true /\ cfg_wf cfg_validate = true /\ cfg_wf cfg_fileops = true.
 Proof. exact (conj cfg_write_wf (conj cfg_validate_wf cfg_fileops_wf)). Qed.
 
@@ -14,6 +15,12 @@ Theorem C19_pin_tests :
   paths_symlink_inner_write = t_inner /\ paths_symlink_inner_validate = t_inner /\ paths_symlink_inner_fileops = t_inner
   /\ paths_late_recheck_write = t_late /\ paths_late_recheck_fileops = t_late.
 Proof. exact pin_inner_tests. Qed.
+
+(* the five link tests (walk of the three validators, late re-check of the two writers) do not require exists() *)
+Theorem C19_pin_link_tests_lstat_only :
+  v_req_exists cfg_write = false /\ v_req_exists cfg_validate = false /\ v_req_exists cfg_fileops = false /\
+  paths_late_requires_exists_write = false /\ paths_late_requires_exists_fileops = false.
+Proof. exact pin_link_tests_lstat_only. Qed.
 
 Theorem C19_pin_patterns :
   paths_schema_name_pattern = t_schema_pattern /\ paths_frozen_regex = t_frozen_regex /\ paths_frozen_len = 16%N.
@@ -33,39 +40,63 @@ Proof. exact accepted_ext. Qed.
 Theorem C19_realpath_real : forall fs fuel acc rest r, real fs acc -> realpath fuel fs acc rest = ROk r -> real fs r.
 Proof. exact realpath_real. Qed.
 
-(* a component of an accepted path that is a symlink is un-stat-able (finding) or a /private carve-out link *)
-Theorem C19_accepted_no_symlink_partial : forall cfg fs cwd s, cfg_wf cfg = true ->
+(* EVERY component of an accepted path that lstat reports as a symbolic link -- dangling, un-stat-able or live --
+   is a carve-out link (first component, resolving below /private/); no exception for links whose target is absent *)
+Theorem C19_accepted_no_symlink : forall cfg fs cwd s, cfg_wf cfg = true ->
   validate_path cfg fs cwd s = VOk ->
   forall q, In q (inits1 (abs_tail cwd s)) -> p_is_symlink fs q = true ->
-    p_exists fs q = ExFalse \/ (exists r, resolve fs q = ResOk r /\ carve_ok cfg q r = true).
+    exists r, resolve fs q = ResOk r /\ carve_ok cfg q r = true.
 Proof. exact accepted_no_symlink. Qed.
 
+(* unconditionally: beyond the carve-out depth (from the second component on) no component is a link *)
+Theorem C19_accepted_no_symlink_beyond_depth : forall cfg fs cwd s, cfg_wf cfg = true ->
+  validate_path cfg fs cwd s = VOk ->
+  forall q, In q (inits1 (abs_tail cwd s)) -> (v_depth cfg < N.of_nat (length q) + 1)%N -> p_is_symlink fs q = false.
+Proof. exact accepted_no_symlink_beyond_depth. Qed.
+
+(* the text's conclusion under the single remaining hypothesis (no /private/ carve-out link on the path) *)
 Theorem C19_accepted_no_symlink_wf : forall cfg fs cwd s, cfg_wf cfg = true ->
-  stattable fs (abs_tail cwd s) -> no_carveout cfg fs (abs_tail cwd s) ->
+  no_carveout cfg fs (abs_tail cwd s) ->
   validate_path cfg fs cwd s = VOk ->
   forall q, In q (inits1 (abs_tail cwd s)) -> p_is_symlink fs q = false.
 Proof. exact accepted_no_symlink_wf. Qed.
 
-(* the statement of the property text, without carve-out and exception: false of the faithful model *)
+(* the statement of the property text, without the carve-out: false of the faithful model -- the carve-out is the only
+   refutation left (the dangling-link refutation fell with repo fix 039cc0c) *)
 Definition C19_full : Prop := no_symlink_full cfg_write.
-Theorem C19_full_refuted_dangling : ~ C19_full.
-Proof. exact no_symlink_full_refuted_dangling. Qed.
 Theorem C19_full_refuted_carveout : ~ C19_full.
 Proof. exact no_symlink_full_refuted_carveout. Qed.
-Theorem C19_dangling_witness :
-  validate_write w_fs_dangling [] w_path_dangling = VOk /\ validate_fileops w_fs_dangling [] w_path_dangling = VOk /\
-  validate_validate w_fs_dangling [] w_path_dangling = VOk /\
-  p_is_symlink w_fs_dangling [w_sb; w_dang] = true /\ late_recheck w_fs_dangling [] w_path_dangling = false.
-Proof. exact dangling_accepted. Qed.
+
+(* regression for 039cc0c, by computation on the generated configurations: a dangling link as last component, a
+   dangling link as directory component and an ENOTDIR link are links for lstat, do not exist for stat, and are
+   refused at the symlink check by all three validators; the late re-checks would fire too *)
+Theorem C19_dangling_refused :
+  p_is_symlink w_fs_dangling [w_sb; w_dang] = true /\ p_exists w_fs_dangling [w_sb; w_dang] = ExFalse /\
+  p_is_symlink w_fs_dangling [w_sb; w_dangd] = true /\ p_exists w_fs_dangling [w_sb; w_dangd] = ExFalse /\
+  all_refuse_symlink w_fs_dangling w_path_dangling = true /\
+  all_refuse_symlink w_fs_dangling w_path_dangling_dir = true /\
+  all_refuse_symlink w_fs_dangling w_path_enotdir = true /\
+  late_recheck_write w_fs_dangling [] w_path_dangling = ExTrue /\
+  late_recheck_fileops w_fs_dangling [] w_path_dangling = ExTrue.
+Proof. exact dangling_refused. Qed.
+
+(* the boolean read by the translator matters: the same model with the pre-fix test accepts both dangling paths *)
+Theorem C19_old_link_test_accepts_dangling :
+  validate_path (cfg_old_test cfg_write) w_fs_dangling [] w_path_dangling = VOk /\
+  validate_path (cfg_old_test cfg_write) w_fs_dangling [] w_path_dangling_dir = VOk /\
+  p_is_symlink w_fs_dangling [w_sb; w_dang] = true /\ p_exists w_fs_dangling [w_sb; w_dang] = ExFalse /\
+  late_recheck_gen true w_fs_dangling [] w_path_dangling = ExFalse.
+Proof. exact old_test_accepts_dangling. Qed.
+
 Theorem C19_wf_nonvacuous :
   validate_write w_fs_live [] w_path_live = VOk /\
   forallb (fun q => negb (p_is_symlink w_fs_live q)) (inits1 (abs_tail [] w_path_live)) = true /\
   validate_write w_fs_live [] [47;115;98;47;108;110;107;100;47;120;46;109;100]%N = VRefuse RSymlink.
 Proof. exact wf_hypotheses_satisfiable. Qed.
 
-(* the late re-check can only fire on a carve-out link once validation accepted *)
-Theorem C19_late_recheck_only_carveout : forall cfg fs cwd s, cfg_wf cfg = true ->
-  validate_path cfg fs cwd s = VOk -> late_recheck fs cwd s = true -> abs_tail cwd s <> [] ->
+(* the late re-check (with either link test) can only fire on a carve-out link once validation accepted *)
+Theorem C19_late_recheck_only_carveout : forall cfg b fs cwd s, cfg_wf cfg = true ->
+  validate_path cfg fs cwd s = VOk -> late_recheck_gen b fs cwd s = ExTrue -> abs_tail cwd s <> [] ->
   exists r, resolve fs (abs_tail cwd s) = ResOk r /\ carve_ok cfg (abs_tail cwd s) r = true.
 Proof. exact late_recheck_only_carveout. Qed.
 
